@@ -141,9 +141,10 @@ CLAIMED = {
             "TLA+ spec Lifecycle.tla (start/shutdown calls, NO_TRACE, pre-existing hooks, shutdown as a sequence of "
             "steps each of which may fail; invariants InstalledWhenStarted, NoTraceUntouched, RestoredExactly, "
             "ShutdownCompletes, QuietAfter, action property StoppedAfterShutdown; the application replacing its hooks "
-            "between two lives of the agent) model-checked with TLC incl. four "
+            "between two lives of the agent, a configuration arriving while shutdown drains, shutdown called from "
+            "another application thread) model-checked with TLC incl. seven "
             "deviations; walks through its state graph replayed on a real Deep object with fakes, one thread per walk",
-            "The life-cycle state machine is exhaustively checked (~14,000 states: every sequence of <=4 start/shutdown "
+            "The life-cycle state machine is exhaustively checked (~45,000 states: every sequence of <=4 start/shutdown "
             "calls x hooks x NO_TRACE x every failure subset); graph walks (all edges in thorough) are replayed on the "
             "real Deep with a fake channel, a real poll timer, pending failing deliveries and raising plugins, and the "
             "hooks / started flag / timer liveness / pending deliveries / plugin shutdown calls compared after every call.",
